@@ -280,7 +280,7 @@ def worker(job):
             other = "1.3.6.1.2.1.1.1.0"
             pos = rng.randrange(2)
             lst = [other, s] if pos else [s, other]
-            out = drv.call(op, lst)
+            out = drv.call("get_many_gen" if i % 3 == 1 else op, lst)   # every third time as a one-shot iterator
         else:
             out = drv.call(op, s)
         res["cases"] += 1
